@@ -166,6 +166,44 @@ def plainDateFromPartialCal (cal : CalId) (p : CalPartial) (ov : Option Overflow
   if !yearCheck || !monthCheck || p.day.isNone then .err .type
   else dateFromPartialCal cal p (ov.getD .constrain)
 
+/-! ### Updating a date from a partial record; year-months -/
+
+def CalPartial.isEmpty (p : CalPartial) : Bool :=
+  p.era.isNone && p.eraYear.isNone && p.year.isNone && p.month.isNone && p.monthCode.isNone && p.day.isNone
+
+/-- `impl_with_fallback_method!` for a receiver with calendar fields `f` (after the fixes): a year designation among
+    the given fields replaces the receiver's, which is its calendar year alone; the receiver's month is carried by its
+    month code alone; the day is the given one or the receiver's. -/
+def mergeFieldsCal (f : CalFields) (p : CalPartial) : CalPartial :=
+  let ye : Option Int × Option String × Option Int :=
+    if p.year.isSome ∨ p.era.isSome ∨ p.eraYear.isSome then (p.year, p.era, p.eraYear)
+    else (some f.year, none, none)
+  let mc : Option Int × Option MonthCode :=
+    match p.month, p.monthCode with
+    | some m, some c => (some m, some c)
+    | some m, none => (some m, none)
+    | none, some c => (some (c.num : Int), some c)
+    | none, none => (none, some f.monthCode)
+  ⟨ye.2.1, ye.2.2, ye.1, mc.1, mc.2, some (p.day.getD f.day)⟩
+
+/-- `PlainDate::with(partial, overflow)` on a date of a modelled non-ISO calendar whose fields are `f`. -/
+def plainDateWithCal (cal : CalId) (f : CalFields) (p : CalPartial) (ov : Option Overflow) : Out IsoDate :=
+  if p.isEmpty then .err .type else dateFromPartialCal cal (mergeFieldsCal f p) (ov.getD .constrain)
+
+/-- `Calendar::year_month_from_partial` for a modelled non-ISO calendar: the day is always 1 (the first day of the
+    calendar month), the result is the ISO date of that day. -/
+def yearMonthFromPartialCal (cal : CalId) (p : CalPartial) (ov : Overflow) : Out IsoDate := do
+  let ey ← resolveEraYear cal p
+  let code ← resolveCode cal p
+  if ey.2 < -MAX_CALENDAR_YEAR ∨ ey.2 > MAX_CALENDAR_YEAR then .err .range else
+  match fromCodes cal ey.1 ey.2 code 1 with
+  | none => .err .range
+  | some iso => yearMonthNew iso.year iso.month (some iso.day) ov
+
+/-- `PlainDate::to_plain_year_month` (after the fix: through the same merge as `with`). -/
+def dateToYearMonthCal (cal : CalId) (f : CalFields) : Out IsoDate :=
+  yearMonthFromPartialCal cal (mergeFieldsCal f ⟨none, none, none, none, none, none⟩) .constrain
+
 /-! ### Identifiers -/
 
 def lowerChar (c : Char) : Char := if 'A' ≤ c ∧ c ≤ 'Z' then Char.ofNat (c.toNat + 32) else c
